@@ -117,4 +117,85 @@ theorem PTFR_ok_iff (t : PTFR.State) (b : Bytes) :
       · simp [hL]; omega
       · simp [hL]; omega
 
+/-! ### review additions: `ptdpDeclared` tied to the wire layout; joint witnesses (kernel evaluation of the decode
+    tables is too deep, so the witnesses are derived from the theorems above and the Golay correction lemma) -/
+
+/-- `ptdpDeclared` (phrased with the model's Golay decoder) is the length field of the Chapter 7 layout: for a header
+    whose two words carry `l` and `m` — each with up to three bit errors — it is `m + (l mod 16)·4096` -/
+theorem ptdpDeclared_words (l m e1 e2 : Nat) (hl : l < 4096) (hm : m < 4096) (he1 : e1 < 2 ^ 24) (he2 : e2 < 2 ^ 24)
+    (hw1 : wt e1 ≤ 3) (hw2 : wt e2 ≤ 3) (body : Bytes) :
+    ptdpDeclared (noisyWord l e1 ++ noisyWord m e2 ++ body) = m + (l % 16) * 4096 := by
+  have h1 : slice (noisyWord l e1 ++ noisyWord m e2 ++ body) 0 3 = noisyWord l e1 := by
+    rw [List.append_assoc]; exact slice_front _ _ 3 (by simp)
+  have h2 : slice (noisyWord l e1 ++ noisyWord m e2 ++ body) 3 6 = noisyWord m e2 := by
+    rw [List.append_assoc, show (6 : Nat) = 3 + 3 from rfl, slice_after _ _ 3 3 (by simp)]
+    simp
+  have g1 : gval (noisyWord l e1) = l := by
+    have h := decodeBytes_gval (noisyWord l e1) (by simp)
+    rw [decode_noisyWord l e1 hl he1 hw1] at h
+    exact (Except.ok.inj h).symm
+  have g2 : gval (noisyWord m e2) = m := by
+    have h := decodeBytes_gval (noisyWord m e2) (by simp)
+    rw [decode_noisyWord m e2 hm he2 hw2] at h
+    exact (Except.ok.inj h).symm
+  unfold ptdpDeclared
+  rw [h1, h2, g1, g2, and_f, shl]
+
+example : ptdpDeclared (Spec.Golay.word 256 ++ Spec.Golay.word 3 ++ [1, 2, 3, 9]) = 3 := by
+  rw [← noisyWord_zero_spec, ← noisyWord_zero_spec]
+  exact ptdpDeclared_words 256 3 0 0 (by decide) (by decide) (by decide) (by decide) wt_zero_le wt_zero_le _
+
+/-- the Spec's Golay words for 256 (content 4, fragment 0, length bits 15..12 = 0), 3, 2049, 2048 -/
+theorem PTDP_witness_words (m : Nat) (w : Bytes) (hm : m < 4096) (hw : w = Spec.Golay.word m) (body : Bytes) :
+    ptdpDeclared ([16, 7, 180] ++ w ++ body) = m := by
+  have e : ([16, 7, 180] : Bytes) = noisyWord 256 0 := by rw [noisyWord_zero_spec]; decide
+  rw [e, hw, ← noisyWord_zero_spec,
+    ptdpDeclared_words 256 m 0 0 (by decide) hm (by decide) (by decide) wt_zero_le wt_zero_le]
+  omega
+
+/-- joint witnesses for the acceptance and the three rejections (header words from the Spec's Golay code):
+    declared 3 with 4 body bytes → accepted, payload = exactly the 3 bytes, 1 byte left over;
+    declared 3 with 2 body bytes → PTDPRemainingData; declared 2049 → PTDPLengthError; 5 bytes → PTDPRemainingData;
+    declared 2048 does not trip the length check -/
+theorem PTDP_witness_accept :
+    (PTDP.unpack PTDP.fresh [16, 7, 180, 0, 49, 213, 1, 2, 3, 9]).2 = .ok [9] ∧
+    (PTDP.unpack PTDP.fresh [16, 7, 180, 0, 49, 213, 1, 2, 3, 9]).1.payload = [1, 2, 3] := by
+  have hd : ptdpDeclared [16, 7, 180, 0, 49, 213, 1, 2, 3, 9] = 3 :=
+    PTDP_witness_words 3 [0, 49, 213] (by decide) (by decide) [1, 2, 3, 9]
+  have hok := (PTDP_ok_iff PTDP.fresh [16, 7, 180, 0, 49, 213, 1, 2, 3, 9]).2
+    ⟨by decide, by rw [hd]; decide, by rw [hd]; decide⟩
+  cases hr : (PTDP.unpack PTDP.fresh [16, 7, 180, 0, 49, 213, 1, 2, 3, 9]).2 with
+  | error e => rw [hr] at hok; cases hok
+  | ok rest =>
+    have hx := PTDP_accepted_exact PTDP.fresh _ rest hr
+    rw [hd] at hx
+    exact ⟨by rw [hx.2.1]; rfl, by rw [hx.1]; rfl⟩
+
+theorem PTDP_witness_reject :
+    (PTDP.unpack PTDP.fresh [16, 7, 180, 0, 49, 213, 1, 2]).2 = .error .ptdpRemaining ∧
+    (PTDP.unpack PTDP.fresh ([16, 7, 180, 128, 20, 158] ++ List.replicate 2049 7)).2 = .error .ptdpLength ∧
+    (PTDP.unpack PTDP.fresh [16, 7, 180, 0, 49]).2 = .error .ptdpRemaining ∧
+    ptdpDeclared ([16, 7, 180, 128, 12, 117] ++ List.replicate 2048 7) = 2048 := by
+  refine ⟨?_, ?_, ?_, ?_⟩
+  · have hd : ptdpDeclared [16, 7, 180, 0, 49, 213, 1, 2] = 3 :=
+      PTDP_witness_words 3 [0, 49, 213] (by decide) (by decide) [1, 2]
+    exact PTDP_short_body _ _ (by decide) (by rw [hd]; decide) (by rw [hd]; decide)
+  · have hd : ptdpDeclared ([16, 7, 180, 128, 20, 158] ++ List.replicate 2049 7) = 2049 :=
+      PTDP_witness_words 2049 [128, 20, 158] (by decide) (by decide) _
+    exact PTDP_length_error _ _ (by rw [List.length_append, List.length_replicate]; decide) (by rw [hd]; decide)
+  · exact PTDP_short_header _ _ (by decide)
+  · exact PTDP_witness_words 2048 [128, 12, 117] (by decide) (by decide) _
+
+/-- PTFR / Golay-bytes witnesses through the iff theorems: a 4-byte payload into a frame object of length 4 accepted,
+    a 5-byte payload rejected, a 3-byte buffer rejected; `Golay.decode` takes 3 bytes, not 2 or 4 -/
+example : (PTFR.unpack { PTFR.fresh with length := 4 } [0x10, 0, 49, 213, 1, 2, 3, 4]).2 = .ok () :=
+  (PTFR_ok_iff _ _).2 (by decide)
+example : (PTFR.unpack { PTFR.fresh with length := 4 } [0x10, 0, 49, 213, 1, 2, 3, 4, 5]).2 ≠ .ok () :=
+  fun h => absurd ((PTFR_ok_iff _ _).1 h) (by decide)
+example : (PTFR.unpack { PTFR.fresh with length := 4 } [0x10, 0, 49]).2 ≠ .ok () :=
+  fun h => absurd ((PTFR_ok_iff _ _).1 h) (by decide)
+example : (Golay.decodeBytes [0, 49, 213]).isOk = true := (Golay_bytes3_iff _).2 rfl
+example : Golay.decodeBytes [0, 49] = .error .generic ∧ Golay.decodeBytes [0, 49, 213, 0] = .error .generic :=
+  ⟨Golay_bytes3_reject _ (by decide), Golay_bytes3_reject _ (by decide)⟩
+
 end Acra.Props.C09
